@@ -1772,7 +1772,7 @@ pub fn c19big_child(a: &Args) {
 }
 
 /// Astronomically large counted repetitions: each definition in a child process with an address
-/// space limit (4 GB) and a time limit (60 s). A panic is a PANIC violation; death by memory
+/// space limit (4 GB) and a CPU-time limit (60 s of CPU, so that a busy machine does not turn into a verdict; 900 s wall clock as a backstop). A panic is a PANIC violation; death by memory
 /// exhaustion / timeout is a RESOURCE violation keyed by the exact pattern.
 pub fn c19big(a: &Args) -> Report {
     let mut rep = Report::new(&a.prop, "vgraph c19big (resource-limited children)", &a.tier_name);
@@ -1783,7 +1783,7 @@ pub fn c19big(a: &Args) -> Report {
             let src = format!("enum T {{ #[regex(\"{p}\")] A }}");
             let out = std::process::Command::new("bash")
                 .arg("-c")
-                .arg("ulimit -v 4000000; exec timeout 60 \"$0\" c19big-child --file \"$1\"")
+                .arg("ulimit -v 4000000; ulimit -t 60; exec timeout 900 \"$0\" c19big-child --file \"$1\"")
                 .arg(&exe)
                 .arg(&src)
                 .output()
@@ -1822,7 +1822,7 @@ pub fn c19big(a: &Args) -> Report {
     let risky_out: Vec<String> = risky
         .par_iter()
         .map(|(src, _)| {
-            let out = std::process::Command::new("bash").arg("-c").arg("ulimit -v 4000000; exec timeout 60 \"$0\" c19big-child --file \"$1\"").arg(&exe).arg(src).output().expect("spawn");
+            let out = std::process::Command::new("bash").arg("-c").arg("ulimit -v 4000000; ulimit -t 60; exec timeout 900 \"$0\" c19big-child --file \"$1\"").arg(&exe).arg(src).output().expect("spawn");
             let text = String::from_utf8_lossy(&out.stdout).to_string();
             text.lines().find(|l| l.starts_with("OUTCOME")).map(|l| l.to_string()).unwrap_or_else(|| format!("DIED status {:?} {}", out.status.code(), String::from_utf8_lossy(&out.stderr).lines().filter(|l| !l.trim().is_empty()).take(2).collect::<Vec<_>>().join(" | ")))
         })
